@@ -593,3 +593,146 @@ def cbs(events):
 
 def sites(events):
     return [e[1] for e in events if e[0] == "cb"]
+
+
+# -------------------------------------------------------------------------------------
+# stub validation against the real wpilib: scripts whose control word changes at step boundaries
+# -------------------------------------------------------------------------------------
+
+
+def script_inputs(script, uti, fms, fault, sites):
+    """Inputs of the LoopEnv run that corresponds to a lock-step driver-station script
+    [[mode, steps], ...] (first mode must be 'disabled': the DS state at program start)."""
+    steps = [script[0][0]]
+    for m, n in script:
+        steps += [m] * n
+    refreshes = []
+    cur = steps[0]
+    for st in steps:
+        if st != cur:
+            refreshes.append(st)  # this refresh ends the running mode ...
+            cur = st
+        refreshes.append(st)  # ... and the next mode's first refresh sees the same word
+    inputs = {"mode0": MODES.index(steps[0]), "use_teleop_in_autonomous": bool(uti), "fms": bool(fms)}
+    for k, m in enumerate(refreshes, 1):
+        inputs[f"mode{k}"] = MODES.index(m)
+    if fault:
+        inputs["fsite0"] = 1 + sites.index(fault[0])
+        inputs["fpat0"] = ["first", "always", "later"].index(fault[1])
+    return inputs, len(refreshes)
+
+
+def comparable_events(log_events):
+    """Callback events of a SYM run up to (not including) the iteration started by the shutdown refresh."""
+    out = []
+    skipping = False
+    after = False
+    for e in log_events:
+        if e[0] == "refresh":
+            skipping = bool(e[3])
+            after = after or skipping
+            continue
+        if e[0] == "wait_end":
+            skipping = False
+            continue
+        if skipping:
+            continue
+        if e[0] == "cb":
+            out.append(["cb", e[1], None if after else int(e[3]), e[4]])
+        elif e[0] == "raise":
+            out.append(["raise", e[1]])
+    return out
+
+
+def validate_against_real(seed, n_scripts, layouts=("R1", "R2", "R3")):
+    """Runs n_scripts random lock-step scripts through the stubs (concrete LoopEnv) and through the real
+    wpilib simulator; returns dict(validated, problems, samples)."""
+    import json
+    import random
+    import subprocess
+    import tempfile
+
+    from engine import symex
+
+    rnd = random.Random(seed)
+    items = []
+    for i in range(n_scripts):
+        layout = layouts[i % len(layouts)]
+        script = [["disabled", rnd.randint(1, 2)]]
+        for _ in range(rnd.randint(2, 4)):
+            m = rnd.choice([x for x in MODES if x != script[-1][0]])
+            script.append([m, rnd.randint(1, 3)])
+        fms = rnd.random() < 0.5
+        fault = None
+        job = dict(layout=layout, cfg=dict(N=0, auto_pkg=(i % 4 != 3), fms=fms, use_teleop_in_autonomous="sym"))
+        if fms and rnd.random() < 0.7:
+            job["cfg"]["faults"] = 1
+        items.append(dict(job=job, script=script, fms=fms, uti=rnd.random() < 0.5, fault=fault, want_fault=bool(job["cfg"].get("faults"))))
+    # SYM runs (concrete)
+    sym_res = []
+    for it in items:
+        job = it["job"]
+        # fault site chosen among the sites of this layout
+        H0 = None
+        comps = ["c1", "c2", "c3"] if job["layout"] == "R2" else ["c1", "c2"]
+        hooks = {"c1": {"setup", "on_enable", "on_disable"}, "c2": {"setup", "on_enable", "on_disable"}, "c3": set()}
+        sites = fault_sites(comps, hooks)
+        if it["want_fault"]:
+            it["fault"] = [rnd.choice(sites), rnd.choice(["first", "always", "later"])]
+        inputs, n = script_inputs(it["script"], it["uti"], it["fms"], it["fault"], sites)
+        job["cfg"]["N"] = n
+        c = symex.ConcreteCtx(inputs)
+        symex._CtxBase.cur = c
+        try:
+            H = run_robot(c, job)
+            sym_res.append(dict(outcome=H.outcome[0], events=comparable_events(H.log.ev)))
+        except Exception as e:  # noqa
+            import traceback
+
+            sym_res.append(dict(outcome="driver-error", events=[], error=traceback.format_exc()[-800:]))
+        symex._CtxBase.cur = None
+    d = tempfile.mkdtemp(prefix="verif_loopreal_", dir=os.environ.get("VERIF_TMP"))
+    env = dict(os.environ, PYTHONDONTWRITEBYTECODE="1")
+
+    def one(i):
+        # one process per script: the HAL simulation keeps global state (clock, DS data)
+        fin = os.path.join(d, f"in{i}.json")
+        with open(fin, "w") as f:
+            json.dump([items[i]], f)
+        try:
+            r = subprocess.run([sys.executable, os.path.join(world.VERIF, "real", "loop_real.py"), "real", fin], cwd=world.VERIF, env=env,
+                               capture_output=True, text=True, timeout=180)
+        except subprocess.TimeoutExpired:
+            return dict(outcome="driver-timeout", events=[])
+        for line in r.stdout.splitlines():
+            if line.startswith("LOOPREAL "):
+                return json.loads(line[9:])[0]
+        return dict(outcome="driver-error", events=[], error=(r.stdout[-300:] + r.stderr[-1200:]))
+
+    from concurrent.futures import ThreadPoolExecutor
+
+    with ThreadPoolExecutor(8) as ex:
+        real_res = list(ex.map(one, range(len(items))))
+    shutil.rmtree(d, ignore_errors=True)
+
+    def norm(evs):
+        return [[e[0], e[1], e[2], (e[3] if e[3] not in ("?", "") else None)] if e[0] == "cb" else e for e in evs]
+
+    for x in sym_res + real_res:
+        x["events"] = norm(x["events"])
+    problems, n_ok, notes = [], 0, []
+    for it, a, b in zip(items, sym_res, real_res):
+        if a["outcome"] == b["outcome"] and a["events"] == b["events"] and a["events"]:
+            n_ok += 1
+        elif b["outcome"] not in ("normal", "boom"):
+            # the real-world driver itself failed (time-out under load, ...): not a statement about the stubs
+            notes.append(f"real-world driver did not complete a script: {b['outcome']} {str(b.get('error'))[-300:]}")
+        else:
+            k = next((i for i, (x, y) in enumerate(zip(a["events"], b["events"])) if x != y), min(len(a["events"]), len(b["events"])))
+            problems.append("loop stub validation: stubs and real wpilib disagree on " + json.dumps(dict(
+                layout=it["job"]["layout"], script=it["script"], fms=it["fms"], uti=it["uti"], fault=it["fault"], sym_outcome=a["outcome"],
+                real_outcome=b["outcome"], first_difference=k, sym=a["events"][max(0, k - 2):k + 3], real=b["events"][max(0, k - 2):k + 3],
+                err=(a.get("error") or b.get("error"))))[:1800])
+    samples = [dict(real_world_script=it["script"], layout=it["job"]["layout"], fms=it["fms"], fault=it["fault"], events=len(a["events"]))
+               for it, a in list(zip(items, sym_res))[:3]]
+    return dict(validated=n_ok, problems=problems, samples=samples, notes=notes)
